@@ -102,23 +102,29 @@ def _model_check(ctx):
     """Returns the list of (scenario name, source, schedule) of model counterexamples."""
     quick = ctx.quick
     runs = []
-    for name, mx in ([('a2', 1)] if quick else [('a2', 2), ('a2b1', 1), ('a3', 1)]):
+    # (scenario, bound on service failures, variants); the long runs first
+    plan = [('a2', 1, 'anr')] if quick else [('a2b1', 1, 'ar'), ('a3', 1, 'arn'), ('a2', 2, 'arn')]
+    for name, mx, variants in plan:
         scn = pd.SCENARIOS[name]
-        runs.append((name, 'as-is %s expire<=%d' % (name, mx), mc_files(scn, 'asis', mx, ['olderSteals'], CLAUSE_INV), True))
-        runs.append((name, 'as-is+NewerKept %s expire<=%d' % (name, mx),
-                     mc_files(scn, 'nk', mx, ['olderSteals'], ['NewerKept']), False))
-        runs.append((name, 'repaired %s expire<=%d' % (name, mx),
-                     mc_files(scn, 'fix', mx, [], CLAUSE_INV + ['NewerKept']), False))
+        if 'a' in variants:
+            runs.append((name, 'as-is %s failures<=%d' % (name, mx),
+                         mc_files(scn, 'asis', mx, ['olderSteals'], CLAUSE_INV), quick))
+        if 'r' in variants:
+            runs.append((name, 'repaired %s failures<=%d' % (name, mx),
+                         mc_files(scn, 'fix', mx, [], CLAUSE_INV + ['NewerKept']), False))
+        if 'n' in variants:
+            runs.append((name, 'as-is+NewerKept %s failures<=%d' % (name, mx),
+                         mc_files(scn, 'nk', mx, ['olderSteals'], ['NewerKept']), False))
     cex = []
 
     def one(run):
         name, title, (mod, cfg, files), cover = run
         return tlc.mc(SPEC_DIR, mod, cfg, extra_files=files, coverage=cover,
-                      workers=6 if quick else 8, timeout=120 if quick else 840)
+                      workers=6 if quick else 8, timeout=120 if quick else 700)
     with concurrent.futures.ThreadPoolExecutor(3) as ex:
         results = list(ex.map(one, runs))
     for (name, title, _f, cover), res in zip(runs, results):
-        ctx.add_mc(title, res, need_actions=ACTIONS if cover else ())
+        ctx.add_mc(title, res, need_actions=ACTIONS if cover and not res['timed_out'] else ())
         if res['timed_out']:
             ctx.notes.append('model run %s timed out (partial)' % title)
         if res['violated']:
@@ -136,7 +142,7 @@ def _model_check(ctx):
 # schedules
 def _simulate(ctx):
     out = []
-    plan = [('a2', 1, 60, 40 if ctx.quick else 600), ('a2b1', 1, 90, 40 if ctx.quick else 600)]
+    plan = [('a2', 1, 60, 60 if ctx.quick else 600), ('a2b1', 1, 90, 60 if ctx.quick else 600)]
     if not ctx.quick:
         plan += [('a3', 2, 110, 400), ('a2', 2, 80, 300)]
     def one(job):
@@ -248,7 +254,7 @@ def _cover(ctx):
     scn = pd.SCENARIOS[name]
     init, edges, cmd = _state_graph(scn, mx, 120 if ctx.quick else 600)
     ctx.cmds.append(cmd)
-    paths, taken, total = _transition_cover(init, edges, 250 if ctx.quick else 6000)
+    paths, taken, total = _transition_cover(init, edges, 700 if ctx.quick else 10000)
     ctx.log('transition cover of %s expire<=%d: %d paths take %d of %d transitions'
             % (name, mx, len(paths), taken, total))
     return [(name, 'cover', _sched(p)) for p in paths], dict(
@@ -287,7 +293,8 @@ def record(items, procs=8):
     return [t for part in parts for t in part]
 
 
-def validate(traces, timeout=900):
+def _validate_batch(job):
+    traces, timeout = job
     work = tlc.scratch('verif-c17-batch-')
     try:
         path = os.path.join(work, 'batch.json')
@@ -295,13 +302,30 @@ def validate(traces, timeout=900):
             json.dump(dict(traces=[dict(tid=t['tid'], scn=t['scn'], lines=t['lines'])
                                    for t in traces]), f)
         verdicts, stats = tlc.validate(SPEC_DIR, 'PresenceTrace', 'PresenceTrace.cfg', path,
-                                       timeout=timeout)
+                                       timeout=timeout, heap='4g')
     finally:
         shutil.rmtree(work, ignore_errors=True)
     total = sum(len(t['lines']) - 1 for t in traces)
     if len(verdicts) != total:
         raise tlc.MachineryError('trace spec judged %d of %d lines' % (len(verdicts), total))
     return verdicts, stats
+
+
+def validate(traces, timeout=900, batch_lines=40000):
+    """Batched trace validation (one TLC run per ~batch_lines lines, 4 at a time)."""
+    batches, cur, n = [], [], 0
+    for t in traces:
+        cur.append(t)
+        n += len(t['lines'])
+        if n >= batch_lines:
+            batches.append(cur)
+            cur, n = [], 0
+    if cur:
+        batches.append(cur)
+    with concurrent.futures.ThreadPoolExecutor(4) as ex:
+        parts = list(ex.map(_validate_batch, [(b, timeout) for b in batches]))
+    verdicts = [v for vs, _ in parts for v in vs]
+    return verdicts, parts[0][1]
 
 
 def _show(line):
@@ -312,6 +336,8 @@ def _show(line):
 def judge(ctx, traces, verdicts, extra=None):
     by_tid = {t['tid']: t for t in traces}
     violations = []
+    violating = collections.Counter()
+    seen_bad = set()
     nontrivial = set()
     flags = collections.Counter()
     evaluations = 0
@@ -335,6 +361,9 @@ def judge(ctx, traces, verdicts, extra=None):
         for f in sorted(fails):
             if f.startswith(PROP + '.'):
                 line = t['lines'][v['i']]
+                if (t['tid'], f) not in seen_bad:
+                    seen_bad.add((t['tid'], f))
+                    violating['%s %s' % (f, t['src'].split(':')[0])] += 1
                 violations.append(dict(
                     clause=f, signature=f,
                     what='at line %d of %s (%s): %s' % (v['i'], t['tid'], t['src'], _show(line)),
@@ -359,6 +388,7 @@ def judge(ctx, traces, verdicts, extra=None):
             print('  drift: %s' % json.dumps(d, sort_keys=True))
     ex = dict(trace_sources=dict(collections.Counter(t['src'].split(':')[0] for t in traces)),
               exercised=dict(flags), drift_examples=drift_examples,
+              violating_traces_by_clause_and_source=dict(violating),
               schedule_actions_not_applicable=sum(t['skipped_actions'] for t in traces))
     if extra:
         ex.update(extra)
@@ -378,7 +408,7 @@ def run(ctx):
         f_cov = ex.submit(_cover, ctx)
         sim = f_sim.result()
         cover, cover_info = f_cov.result()
-    n_rnd = 150 if ctx.quick else 6000
+    n_rnd = 300 if ctx.quick else 10000
     rnd = []
     names = ['a2', 'a2b1', 'a3', 'a3b2e2', 'a2b1h3']
     for k in range(n_rnd):
@@ -400,3 +430,77 @@ def replay(ctx, path):
     verdicts, stats = validate(traces)
     ctx.cmds.append(stats['cmd'])
     return judge(ctx, traces, verdicts)
+
+
+# ---------------------------------------------------------------------------
+# ./check C17 --selftest : the trace spec must name the clause when one logged
+# field of a good trace is falsified (DESIGN.md 4.4, first half)
+SELFTEST_SCHEDULE = [
+    ('Submit', ['host1', 'c1']), ('Run', ['host1']),            # c1 registers on host1
+    ('Submit', ['host2', 'c2']), ('Run', ['host2']),            # c2 on host2 meets host1's nodes: waits
+    ('Finish', ['host1', 'c1']), ('Run', ['host1']),            # clean-up of c1 fires c2's watch
+    ('Run', ['host2']),                                         # retry: c2 registers
+]
+
+
+def _corruptions(lines):
+    """(name, expected clause, function that falsifies one field of a copy)."""
+    def find(pred):
+        return next(i for i, l in enumerate(lines) if pred(l))
+    i_del = find(lambda l: l['ev'] == 'call' and l['op'] == 'delete' and l['w'])
+    i_cre = find(lambda l: l['ev'] == 'call' and l['op'] == 'create' and l['res'] == 'ok')
+    i_get = find(lambda l: l['ev'] == 'call' and l['op'] == 'get' and l['seen'] not in (-1, 0, l['s']))
+    i_end = find(lambda l: l['ev'] == 'end' and l['res'] == 'wait')
+
+    def owner(ls):
+        ls[i_del]['w'][0]['o'] = ls[i_del]['s'] + 1          # the store says: owned by another session
+
+    def persistent(ls):
+        ls[i_cre]['post']['nodes'][ls[i_cre]['path']]['o'] = 0   # the created node is not ephemeral
+
+    def other(ls):
+        ls[i_cre]['post']['nodes'][ls[i_cre]['path']]['o'] = ls[i_cre]['s'] + 1
+
+    def not_waiting(ls):
+        ls[i_end]['res'] = 'ok'                              # met a foreign owner, yet reports success
+
+    def busy(ls):
+        ls[i_get]['fired'] = [[ls[i_get]['h'], ls[i_get]['rc']]]   # retried while the node is there
+
+    def wrong_container(ls):
+        ls[i_del]['rc'] = 'c2'                               # the node was registered for c1
+
+    return [('owner of a deleted node', 'C17.noForeign', owner),
+            ('created node persistent', 'C17.ephemeral', persistent),
+            ('created node owned by another session', 'C17.ephemeral', other),
+            ('foreign owner but request succeeds', 'C17.waits', not_waiting),
+            ('retry while the awaited node exists', 'C17.waits', busy),
+            ('delete request removes another container\'s node', 'C17.ownOnly', wrong_container)]
+
+
+def selftest(ctx):
+    import copy
+    scn = pd.SCENARIOS['a2']
+    lines, executed, skipped = pd.run_schedule(scn, SELFTEST_SCHEDULE)
+    if skipped:
+        raise tlc.MachineryError('selftest schedule did not apply')
+    traces = [dict(tid='good', scn=pd.header(scn), lines=lines)]
+    cases = _corruptions(lines)
+    for k, (_name, _clause, fn) in enumerate(cases):
+        ls = copy.deepcopy(lines)
+        fn(ls)
+        traces.append(dict(tid='bad%d' % k, scn=pd.header(scn), lines=ls))
+    verdicts, _stats = validate(traces)
+    failed = collections.defaultdict(set)
+    for v in verdicts:
+        failed[v['tid']].update(f for f in v['fail'] if f.startswith(PROP + '.'))
+    ok = True
+    if failed['good']:
+        print('selftest: the unmodified trace fails %s' % sorted(failed['good']))
+        ok = False
+    for k, (name, clause, _fn) in enumerate(cases):
+        got = sorted(failed['bad%d' % k])
+        hit = clause in got
+        ok = ok and hit
+        print('selftest: %-50s expected %-14s TLC named %s  %s' % (name, clause, got, 'ok' if hit else 'MISSED'))
+    return 0 if ok else 2
